@@ -15,6 +15,7 @@ EXTENDS Integers, Sequences, FiniteSets, TLC, Json, IOUtils
 Trace == ndJsonDeserialize(IOEnv.VERIF_TRACE)
 N == Len(Trace)
 HorizonSec == 6300
+MaxEnqueued == 20    \* built-in default of maxEnqueuedJobs
 Names == {"jc1", "jc2.v1.x", "jc3", "jc4"}
 
 VARIABLES l, dues, lo, req, kind, dirty, reqs, allreq, skips, jobsEver, hf, viol
@@ -102,10 +103,22 @@ StateFails(e) ==
 
 \* the cron reconciler skips a schedule (concurrency policy Forbid) only when the store counts maxConcurrency active Jobs,
 \* and creates a Job for a Forbid JobConfig only when it counted fewer
-ActiveOf(st, n) == Cardinality({j \in Range(st.jobs) : j.jc = n /\ j.started /\ ~j.term})
+ActiveOf(st, n) == Cardinality({j \in Range(st.jobs) : j.jc = n /\ j.uid = st.api[n].uid /\ j.started /\ ~j.term})   \* of the current incarnation of the JobConfig
 ForbidFails(p, s, e) ==
-    Fail("C06_CronForbid", \A g \in Range(e.skipped) : /\ p.cache[g.jc].pol = "Forbid"
-                                                         /\ g.jc \in DOMAIN p.counter /\ p.counter[g.jc] + 1 > p.cache[g.jc].maxc)
+    Fail("C06_CronForbid", \A g \in Range(e.skipped) : \/ /\ p.cache[g.jc].pol = "Forbid"
+                                                            /\ g.jc \in DOMAIN p.counter /\ p.counter[g.jc] + 1 > p.cache[g.jc].maxc
+                                                         \/ p.cache[g.jc].stq >= MaxEnqueued)      \* or the queue-length limit (from the cached status)
+\* ---- composition with the real job queue and jobconfig controllers (system mode)
+Owned(st, j) == j.jc \in DOMAIN st.api /\ st.api[j.jc].ex /\ st.api[j.jc].uid = j.uid
+SystemStepFails(p, s) ==
+    Fail("C05_Admission", \A j \in Range(s.jobs) :
+            (j.started /\ j.pol \in {"Forbid", "Enqueue"} /\ Owned(p, j) /\ \E q \in Range(p.jobs) : q.name = j.name /\ ~q.started)
+               => ActiveOf(p, j.jc) < p.api[j.jc].maxc)
+SystemFinalFails(s) ==
+         Fail("C06_NoStuck", \A j \in Range(s.jobs) : (Owned(s, j) /\ ~j.started /\ ~j.term /\ ~j.adm) => (j.pol = "Enqueue" /\ ActiveOf(s, j.jc) >= s.api[j.jc].maxc))
+    \cup Fail("C15_Exact", \A n \in DOMAIN s.api : s.api[n].ex =>
+                 /\ s.api[n].sta = Cardinality({j \in Range(s.jobs) : j.jc = n /\ j.uid = s.api[n].uid /\ j.labelok /\ j.started /\ ~j.term})
+                 /\ s.api[n].stq = Cardinality({j \in Range(s.jobs) : j.jc = n /\ j.uid = s.api[n].uid /\ j.labelok /\ ~j.started /\ ~j.term}))
 \* a Job that appears was requested for exactly that JobConfig and time
 StepFails(p, s, rq) ==
     Fail("C02_Requested", \A j \in Range(s.jobs) : (\A q \in Range(p.jobs) : q.name # j.name) => \E f \in rq : f.jc = j.jc /\ f.t = j.sched)
@@ -138,7 +151,8 @@ Next ==
            sk == IF reset THEN {} ELSE skips \cup {<<g.jc, g.t>> : g \in Range(e.skipped)}
            je == IF reset THEN {} ELSE jobsEver \cup JobKeys(s)
            fs == StateFails(e)
-                 \cup (IF reset \/ l = 1 THEN {} ELSE StepFails(p, s, ar) \cup ForbidFails(p, s, e))
+                 \cup (IF reset \/ l = 1 THEN {} ELSE StepFails(p, s, ar) \cup ForbidFails(p, s, e) \cup (IF s.system THEN SystemStepFails(p, s) ELSE {}))
+                 \cup (IF e.ev = "Final" /\ s.system THEN SystemFinalFails(s) ELSE {})
                  \cup (IF work THEN UNION {pf[n] : n \in NS} ELSE {})
                  \cup (IF boot THEN UNION {BootFails(s, n) : n \in NS} ELSE {})
                  \cup (IF e.ev \in {"Final", "DrainFailed"} THEN FinalFails(s, rq, sk, je) \ (IF e.ev = "Final" THEN {} ELSE {"C20_Quiescent"}) ELSE {})
